@@ -255,6 +255,55 @@ m('c13-harmless-newiq-switch', 'C13', 'stanza/iq.go', '''		case "type":
 		default:
 		}''', 'harmless')
 
+# round 5: the two deadline watchers share one helper, each with its own setter (harmless)
+m('c10-harmless-watch-helper', 'C10', 'session.go', '''func setWriteDeadline(ctx context.Context, conn net.Conn) context.CancelFunc {
+	cancelCtx, cancel := context.WithCancel(context.Background())
+	done := make(chan struct{})
+	go func() {
+		defer close(done)
+		select {
+		case <-ctx.Done():
+			/* #nosec */
+			conn.SetWriteDeadline(aLongTimeAgo)
+			<-cancelCtx.Done()
+			/* #nosec */
+			conn.SetWriteDeadline(time.Time{})
+		case <-cancelCtx.Done():
+		}
+	}()
+	return func() {
+		cancel()
+		<-done
+	}
+}
+''', '''func setWriteDeadline(ctx context.Context, conn net.Conn) context.CancelFunc {
+	return watchCtx(ctx, conn.SetWriteDeadline)
+}
+
+func watchCtx(ctx context.Context, set func(time.Time) error) context.CancelFunc {
+	cancelCtx, cancel := context.WithCancel(context.Background())
+	done := make(chan struct{})
+	go func() {
+		defer close(done)
+		select {
+		case <-ctx.Done():
+			/* #nosec */
+			set(aLongTimeAgo)
+			<-cancelCtx.Done()
+			/* #nosec */
+			set(time.Time{})
+		case <-cancelCtx.Done():
+		}
+	}()
+	return func() {
+		cancel()
+		<-done
+	}
+}
+''', 'harmless')
+# round 5: the encoder's address read from the field LocalAddr returns (harmless)
+m('c05-harmless-from-field', 'C05', 'session.go', '''		se.from = s.LocalAddr()''', '''		se.from = s.in.Info.To''', 'harmless')
+
 env = dict(os.environ, GOFLAGS='-mod=mod', GOPROXY='off', GOSUMDB='off', GOTOOLCHAIN='local')
 
 
